@@ -1,4 +1,5 @@
 import DaskModel.Lemmas.MaskedRed
+import DaskModel.Lemmas.MaskedRedNd
 import DaskModel.Props.C33
 import DaskModel.Props.C22
 /-!
@@ -19,10 +20,16 @@ prod `(*, 1)`, any `(or, False)`, all `(and, True)` — every blocking, every `s
                                of the whole array, payload AND mask; instances `ma_sum_eq_numpy_ma`, `ma_prod_eq_numpy_ma`,
                                `ma_any_eq_numpy_ma`, `ma_all_eq_numpy_ma`; `ma_sum_spec`; `maChunk_toOpt_eq_mfold` (the old model
                                is this one with the payload forgotten);
+* `ma_red_nd_eq`             — the same over SEVERAL axes at once (commutative monoid): every grid of blocks, every per-axis
+                               `split_every`, every valid depth (K1 n-d `gridReduce_eq_fold` at the plain product monoid on pairs,
+                               transported along "every partial is normalised" with `C22.gridReduce_mapGrid`);
 * `ma_all_masked_result_masked` — the result is `masked` iff the array has a mask and every element is masked;
 * `ma_min_max_eq`            — min / max = `List.min?` / `List.max?` of the unmasked values, `masked` iff there is none;
 * `ma_mean_eq_numpy_ma`      — the `(total, n)` partial: `n` is the number of unmasked elements, and total AND n are masked
                                exactly when everything is masked (dask's `_numel_masked` is a masked sum of ones);
+* `ma_average_eq_partial`    — `da.ma.average(a, weights=w)`: numerator = weighted sum of the unmasked values (masked iff all
+                               is masked), denominator = total weight of the unmasked positions — the numerator's blocks come
+                               out of a per-block ufunc call and are `shrunk`, so the refuted class below applies to it too;
 * `ma_var_eq`                — the order-2 moment tree over the unmasked values of every block = `np.ma.var` of the array
                                (`C22.var_eq_numpy` transported), undefined (`masked`) when nothing is unmasked;
 * `getmaskarray_nomask_den`, `getdata_den`, `filled_arr_den` — per block on the blocks of `from_array`, `nomask` expanded per
@@ -151,6 +158,56 @@ theorem maChunk_toOpt_eq_mfold (op : Int → Int → Int) (e : Int) (h : IsMonoi
         simp [fill, hx, ha, liftOp, this, h.id_right]
       · simp [fill, hx, ha, liftOp]
 
+
+/-! ## several axes at once -/
+
+open Dask.C22 in
+/-- **masked sum/prod/any/all over SEVERAL axes at once** (commutative monoid): for every grid of blocks (each with its own
+    `nomask` status), every per-axis `split_every`, every valid depth, the n-d tree of numpy.ma's own kernel returns one partial:
+    payload = fold of all unmasked values, masked iff every block partial is masked -/
+theorem ma_red_nd_eq (h : IsCommMonoid op e) (d : Nat) (ks nb : List Nat) (bs : List (MBlock α))
+    (hax : AxesOk (d + 1) ks nb) (hl : bs.length = (cartesian (nb.map List.range)).length) :
+    gridReduce (maRed op e) (maRed op e) nb (ks.map some) false (d + 1) (mkGrid nb (bs.map (chunkOf op e)))
+      = some [([], ⟨(unmasked (bs.map (·.elems)).flatten).foldr op e, bs.all fun b => !b.nomask && allMasked b.elems⟩)] := by
+  have hm : IsMonoid op e := h.toIsMonoid
+  have hnorm : (bs.map (chunkOf op e)).map (norm e) = bs.map (chunkOf op e) := by
+    rw [List.map_map]
+    apply List.map_congr_left
+    intro b _
+    exact norm_maChunk hm b.nomask b.elems
+  have key := gridReduce_mapGrid (norm e) id (fun xs => xs.foldr (pop op) ⟨e, true⟩) (fun xs => xs.foldr (pop op) ⟨e, true⟩)
+    (maRed op e) (maRed op e)
+    (fun xs => by rw [← maRed_eq_foldr_norm]; exact (norm_maChunk hm false xs).symm)
+    (fun xs => by rw [← maRed_eq_foldr_norm]; rfl)
+    (ks.map some) false (d + 1) nb (mkGrid nb (bs.map (chunkOf op e)))
+  rw [← mkGrid_map, hnorm, gridReduce_eq_fold (pop_comm_monoid h) d ks nb _ hax (by simpa using hl)] at key
+  have hfold : (bs.map (chunkOf op e)).foldr (pop op) ⟨e, true⟩ = maRed op e (bs.map (chunkOf op e)) := by
+    rw [maRed_eq_foldr_norm, hnorm]
+  rw [hfold, maRed_chunks hm, foldFilled_eq_unmasked hm] at key
+  cases hg : gridReduce (maRed op e) (maRed op e) nb (ks.map some) false (d + 1) (mkGrid nb (bs.map (chunkOf op e))) with
+  | none => rw [hg] at key; simp at key
+  | some g =>
+    rw [hg] at key
+    simp only [Option.map_some, Option.some.injEq] at key
+    have : mapGrid id g = g := by
+      unfold mapGrid
+      simp
+    rw [this] at key
+    rw [← key]
+
+theorem isum_comm_monoid : IsCommMonoid (fun a b : Int => a + b) 0 := ⟨isum_monoid, Int.add_comm⟩
+
+/-- non-vacuity: a 2 × 2 grid of blocks — an all-masked block, a zero-length `nomask` block, two mixed ones -/
+example : gridReduce (maRed (· + ·) 0) (maRed (· + ·) 0) [2, 2] [some 2, some 2] false 1
+      (mkGrid [2, 2] (([⟨false, [⟨1, true⟩, ⟨2, true⟩]⟩, ⟨false, [⟨3, false⟩]⟩, ⟨false, [⟨4, true⟩, ⟨5, false⟩]⟩, ⟨false, []⟩] :
+        List (MBlock Int)).map (chunkOf (· + ·) 0)))
+    = some [([], ⟨8, false⟩)] := by
+  have hax : AxesOk 1 [2, 2] [2, 2] := by
+    unfold AxesOk
+    exact List.Forall₂.cons ⟨by decide, by decide, by decide⟩ (List.Forall₂.cons ⟨by decide, by decide, by decide⟩ List.Forall₂.nil)
+  rw [show [some 2, some 2] = [2, 2].map some from rfl, ma_red_nd_eq isum_comm_monoid 0 [2, 2] [2, 2] _ hax (by decide)]
+  decide
+
 /-! ## min / max -/
 
 theorem toM_filterMap (xs : List (Masked Int)) : (toM xs).filterMap id = unmasked xs := by
@@ -225,6 +282,7 @@ theorem ma_mean_eq_numpy_ma (nm : Bool) (k depth : Nat) (hk : k ≠ 0) (blocks :
     exact unmasked_ones _
   · show (!nm && allMasked (ones blocks.flatten)) = _
     rw [allMasked_ones]
+
 
 /-! ## var -/
 
@@ -312,6 +370,77 @@ theorem ma_red_shrunk_empty_block_refuted :
   refine ⟨?_, by decide⟩
   rw [ma_tree_eq isum_monoid 2 1 (by decide) _ (by simp) (by decide)]
   decide
+
+/-! ## average with weights -/
+
+theorem length_eq_of_map_length {β γ : Type} : ∀ (xs : List (List β)) (ys : List (List γ)),
+    xs.map List.length = ys.map List.length → xs.length = ys.length
+  | [], [], _ => rfl
+  | [], _ :: _, h => by simp at h
+  | _ :: _, [], h => by simp at h
+  | _ :: xs, _ :: ys, h => by
+    simp only [List.map_cons, List.cons.injEq] at h
+    simp only [List.length_cons, length_eq_of_map_length xs ys h.2]
+
+theorem masks_wprod : ∀ (u : List Int) (v : List (Masked Int)), u.length = v.length →
+    allMasked (wprod u v) = allMasked v ∧ anyMasked (wprod u v) = anyMasked v
+  | [], [], _ => ⟨rfl, rfl⟩
+  | [], _ :: _, h => by simp at h
+  | _ :: _, [], h => by simp at h
+  | a :: as, y :: ys, h => by
+    have ih := masks_wprod as ys (by simpa using h)
+    unfold allMasked anyMasked wprod at *
+    simp only [List.zipWith_cons_cons, List.all_cons, List.any_cons, ih.1, ih.2, and_self]
+
+/-- **ma_average_eq_partial**: `da.ma.average(a, weights=w)` over aligned blocks.  The numerator is the masked sum of the blocks
+    of `multiply(a, w * ~mask, dtype=…)` — a per-block ufunc call whose result has `nomask` when the block has no masked element,
+    in particular when it is ZERO-LENGTH (`shrunk`): the tree returns the weighted sum of the UNMASKED values, masked iff
+    everything is masked; the denominator (plain sum of `w * ~mask`) is the total weight of the unmasked positions.  Every
+    blocking, `split_every`, valid depth — on the complement of the refuted class (`hfind`, stated for the product blocks, which have
+    the lengths and masks of the blocks of `a`: `masks_wprod`); without `hfind` it is false as `ma_red_shrunk_empty_block_refuted`. -/
+theorem ma_average_eq_partial (k depth : Nat) (hk : k ≠ 0) (wss : List (List Int)) (blocks : List (List (Masked Int)))
+    (hne : blocks ≠ []) (hd : blocks.length ≤ k ^ depth) (hal : wss.map List.length = blocks.map List.length)
+    (hfind : (∃ b ∈ List.zipWith wprod wss blocks, b = []) →
+      ¬ ((List.zipWith wprod wss blocks).flatten ≠ [] ∧ allMasked (List.zipWith wprod wss blocks).flatten = true)) :
+    maTree (· + ·) 0 k depth ((List.zipWith wprod wss blocks).map shrunk)
+      = [numpyShrunk (· + ·) 0 (wprod wss.flatten blocks.flatten)] ∧
+    treeReduce isum isum k depth ((List.zipWith wgtMasked wss blocks).map isum)
+      = [isum (wgtMasked wss.flatten blocks.flatten)] ∧
+    (numpyShrunk (· + ·) 0 (wprod wss.flatten blocks.flatten)).data = wsumUnmasked wss.flatten blocks.flatten ∧
+    (numpyShrunk (· + ·) 0 (wprod wss.flatten blocks.flatten)).mask
+      = (anyMasked blocks.flatten && allMasked blocks.flatten) := by
+  have hlen := length_eq_of_map_length wss blocks hal
+  have hz : (List.zipWith wprod wss blocks).length = blocks.length := by simp [List.length_zipWith, hlen]
+  have hz2 : (List.zipWith wgtMasked wss blocks).length = blocks.length := by simp [List.length_zipWith, hlen]
+  have hbne : blocks.length ≠ 0 := by simpa using hne
+  have hl2 : wss.flatten.length = blocks.flatten.length := by
+    rw [List.length_flatten, List.length_flatten, hal]
+  refine ⟨?_, ?_, ?_, ?_⟩
+  · rw [ma_red_shrunk_eq_numpy_partial isum_monoid k depth hk _ (by intro h0; rw [h0] at hz; exact hbne hz.symm) (by omega) hfind]
+    congr 2
+    exact C33.zipWith_flatten _ wss blocks hal
+  · have hh : Hom isum isum := hom_monoid C33.isum_monoid'
+    rw [treeReduce_eq_fold isum isum hh hh k depth hk _
+      (by intro h0; have := congrArg List.length h0; simp only [List.length_map, List.length_nil] at this; omega)
+      (by simp only [List.length_map]; omega), C33.isum_flatten']
+    congr 2
+    exact C33.zipWith_flatten _ wss blocks hal
+  · show foldFilled (· + ·) 0 (wprod wss.flatten blocks.flatten) = _
+    unfold foldFilled wprod wsumUnmasked isum
+    rw [List.map_zipWith]
+    congr 1
+    apply congrFun
+    apply congrFun
+    congr 1
+    funext w x
+    cases x.mask <;> simp [fill]
+  · have := masks_wprod wss.flatten blocks.flatten hl2
+    show (!(!anyMasked (wprod wss.flatten blocks.flatten)) && allMasked (wprod wss.flatten blocks.flatten)) = _
+    rw [this.1, this.2, Bool.not_not]
+
+/-- non-vacuity: weights (1 2 | 3), values (5̶ 7 | 4): numerator 7·2 + 4·3 = 26, denominator 2 + 3 = 5 -/
+example : (numpyShrunk (· + ·) 0 (wprod [1, 2, 3] [⟨5, true⟩, ⟨7, false⟩, ⟨4, false⟩])).data = 26 ∧
+    isum (wgtMasked [1, 2, 3] [⟨5, true⟩, ⟨7, false⟩, ⟨4, false⟩]) = 5 := by decide
 
 /-! ## getmaskarray (`nomask` expanded), getdata, filled on the blocks of `from_array` -/
 
